@@ -72,6 +72,18 @@ func genC12(r *sim.Rand, tier string) *sim.Program {
 	return p
 }
 
+// secp160r1 (SEC 2): a curve whose ORDER (161 bits) is longer than its field (160 bits) - the block that a nonce is drawn
+// from is sized by the order (FIPS 186-4 B.5.2), not by the field. crypto/elliptic's generic arithmetic applies (a = -3).
+var c12Secp160r1 = func() *elliptic.CurveParams {
+	h := func(s string) *big.Int { v, _ := new(big.Int).SetString(s, 16); return v }
+	return &elliptic.CurveParams{Name: "secp160r1", BitSize: 160,
+		P:  h("FFFFFFFFFFFFFFFFFFFFFFFFFFFFFFFF7FFFFFFF"),
+		N:  h("0100000000000000000001F4C8F927AED3CA752257"),
+		B:  h("1C97BEFC54BD7A8B65ACF89F81D4D4ADC565FA45"),
+		Gx: h("4A96B5688EF573284664698968C38BB913CBFC82"),
+		Gy: h("23A628553168947D59DCC912042351377AC5FB32")}
+}()
+
 var c12SM9Order = func() *big.Int {
 	n, _ := new(big.Int).SetString("B640000002A3A6F1D603AB4FF58EC74449F2934B18EA8BEEE56EE19CD69ECF25", 16)
 	return n
@@ -607,7 +619,7 @@ func c12Build(opn string, seed, msg []byte) (*c12Case, error) {
 	case "legacy.sign", "legacy.encrypt":
 		// the sm2 package also runs its algorithms over other curves (sm2_legacy.go, randFieldElement);
 		// here NIST P-224, P-256, P-384 or P-521 (chosen by the program), with crypto/elliptic as the arithmetic oracle
-		cv := []elliptic.Curve{elliptic.P256(), elliptic.P256(), elliptic.P224(), elliptic.P384(), elliptic.P521()}[int(seed[1])%5]
+		cv := []elliptic.Curve{elliptic.P256(), elliptic.P256(), elliptic.P224(), elliptic.P384(), elliptic.P521(), c12Secp160r1}[int(seed[1])%6]
 		ln := cv.Params().N
 		cbl, cshift := 0, uint(0)
 		if ln.BitLen() != 256 {
